@@ -1,6 +1,6 @@
 (* C11 — --ansi strips escape sequences only and colours the right characters.
    Statements only; proofs live in proofs/AnsiProofs.v. *)
-From Fzf Require Import Prelude AnsiSpec AnsiModel AnsiProofs AnsiSubProofs.
+From Fzf Require Import Prelude AnsiSpec AnsiModel AnsiProofs AnsiSubProofs AnsiNthSpec AnsiNthModel AnsiNthProofs.
 Open Scope Z_scope.
 
 (* The hand-written scanner (fast pre-scan, matchControlSequence, matchOperatingSystemCommand, backspace
@@ -125,3 +125,64 @@ Proof.
   split; [repeat constructor; (now left) || (right; split; reflexivity)|].
   repeat split; reflexivity.
 Qed.
+
+(* ---------- fields shown out of context (--ansi --with-nth), lines of a stream ---------- *)
+(* What the display check (harness c11disp.go) compares the screen with: the input cut into consecutive pieces -
+   the fields of a line, the lines of a stream - each coloured from the state the pieces before it leave behind
+   (shown or hidden).  All pieces together are the stream coloured as a whole, and one piece shown alone has the
+   colours it has inside the stream. *)
+Theorem pieces_are_the_stream : forall pcs s,
+  concat (piece_chars pcs s) = term_chars (concat pcs) s /\
+  shown_chars (seq 0 (length pcs)) pcs s = term_chars (concat pcs) s.
+Proof. exact pieces_are_the_stream_proof. Qed.
+Print Assumptions pieces_are_the_stream.
+
+Theorem shown_piece_in_context : forall pre p post s,
+  shown_chars [length pre] (pre ++ p :: post) s = term_chars p (term_state (concat pre) s).
+Proof. exact shown_one_proof. Qed.
+Print Assumptions shown_piece_in_context.
+
+(* The parameter list "attributes that are on, foreground, background" re-creates a state when - and only when - it
+   is applied to the RESET state: after ESC[m (whatever the state was) ESC[<restore_params s>m gives s, and the list
+   lies in the documented SGR domain; applied to a state that has other attributes on it does not give s. *)
+Theorem restore_from_reset : forall s s0, sgr_ok s = true ->
+  sgr_wf (restore_params s) = true /\ sgr_apply (restore_params s) (sgr_apply [] s0) = s.
+Proof. exact restore_from_reset_proof. Qed.
+Print Assumptions restore_from_reset.
+
+Theorem restore_needs_reset : exists s s0, sgr_ok s = true /\ sgr_apply (restore_params s) s0 <> s.
+Proof. exact restore_needs_reset_proof. Qed.
+Print Assumptions restore_needs_reset.
+
+(* ansiState.ToString (model state_to_string) on a coloured state without hyperlink, colours in the palette / 24-bit
+   domain: the text is exactly ESC [ p1;...;pn m with decimal parameters p1..pn = restore_params of the state, and
+   interpretCode (model) reads it back, from the nil state that "ESC[m" leaves, as the state it was printed from
+   (colours and attributes; the line background is not carried). *)
+Theorem to_string_is_restore : forall a l, sgr_ok a = true -> colored (enc_state a l None) = true ->
+  exists dss, state_to_string (enc_state a l None) = render_sgr dss /\
+              Forall param_ok dss /\ map dec_val dss = restore_params a.
+Proof. exact to_string_is_restore_proof. Qed.
+Print Assumptions to_string_is_restore.
+
+Theorem to_string_read_back : forall a l, sgr_ok a = true -> colored (enc_state a l None) = true ->
+  interpret_code (state_to_string (enc_state a l None)) None = Ok (enc_state a (-1) None, false).
+Proof. exact to_string_read_back_proof. Qed.
+Print Assumptions to_string_read_back.
+
+(* non-vacuity: ESC[1;4;31m "alpha " ESC[22;24m "bravo " "charlie" ESC[m with fields 1 and 3 shown: "charlie" is plain
+   red; the state before field 3 prints as ESC[31;49m; the core.go loop (model) puts ESC[m ESC[31;49m in front of field 3
+   and the transformed line gets the spans 0-6 bold+underline red, 6-13 red *)
+Example c11_nth_nonvacuous :
+  let red := mkSgr (CIdx 1) CDefault no_attrs in
+  let f1 := [ISgr [1; 4; 31]; IText [97;108;112;104;97;32]] in
+  let f2 := [ISgr [22; 24]; IText [98;114;97;118;111;32]] in
+  let f3 := [IText [99;104;97;114;108;105;101]; ISgr []] in
+  shown_chars [0%nat; 2%nat] [f1; f2; f3] sgr_reset
+    = repeat (mkSgr (CIdx 1) CDefault (mkAttrs true false false true false false false)) 6 ++ repeat red 7 /\
+  sgr_ok red = true /\ restore_params red = [31; 49] /\
+  state_to_string (enc_state red (-1) None) = [27;91;51;49;59;52;57;109] /\
+  nth_display [[27;91;49;59;52;59;51;49;109; 97;108;112;104;97;32]; [27;91;50;50;59;50;52;109; 98;114;97;118;111;32];
+               [99;104;97;114;108;105;101; 27;91;109]] [0%nat; 2%nat] None None
+    = Ok ([97;108;112;104;97;32; 99;104;97;114;108;105;101],
+          Some [mkOff 0 6 (mkA 1 (-1) 9 (-1) None); mkOff 6 13 (mkA 1 (-1) 0 (-1) None)], None).
+Proof. vm_compute. repeat split. Qed.
